@@ -29,6 +29,7 @@ Lookup(key, table, default) == [op |-> "lookup", key |-> key, table |-> table, d
 DynLen16(t)  == [op |-> "len16", of |-> t]
 DynPadSeq(t) == [op |-> "padseq", of |-> t, block |-> 16]           \* 13.29 confidentiality trailer
 DynPadFF(t)  == [op |-> "padff", of |-> t, align |-> 4, last |-> 7]  \* 13.28.4 integrity pad, pad length, next header
+State16(name) == [op |-> "state16", name |-> name]                  \* a scripted-BMC counter (rule effects)
 Cksum(t)     == [op |-> "cksum", of |-> t]                          \* 13.8 two's complement checksum
 
 DigestLen(a) == CASE a = "sha1" -> 20 [] a = "md5" -> 16 [] a = "sha256" -> 32
